@@ -83,7 +83,7 @@ Apply(bs, k, n) ==
 
 FInit == Init /\ fault = None /\ fblocks = None /\ fmi = None
 FChoose == Choose /\ UNCHANGED <<fault, fblocks, fmi>>
-Fault == /\ pc = "done" /\ Hash % BaseMod = 0
+Fault == /\ pc = "done" /\ HashS % BaseMod = 0
          /\ \E k \in FaultKinds : \E n \in Sites(k) :
               /\ fault' = [kind |-> k, site |-> n]
               /\ fblocks' = Apply(ModelOf(deps, layout).blocks, k, n)
